@@ -97,13 +97,26 @@ def _sign_names(ctx, f) -> set[str]:
     return out
 
 
+def _is_inline_sign(a: ast.AST) -> bool:
+    return isinstance(a, ast.IfExp) and bool(_reads_maximize(a.test)) and token([a.body])[0] == "SIGN" and token([a.orelse])[0] == "SIGN"
+
+
 def _is_sign_adapted(e: ast.AST, signs: set[str], kinds: Kinds, depth=0) -> bool:
     """Is e (a fitness-kind expression) multiplied by a sign adapter?"""
     if depth > 6:
         return False
     if isinstance(e, ast.BinOp) and isinstance(e.op, ast.Mult):
         for a, b in ((e.left, e.right), (e.right, e.left)):
-            if norm(a) in signs:
+            if norm(a) in signs or _is_inline_sign(a):
+                return True
+    if isinstance(e, ast.IfExp) and _reads_maximize(e.test):
+        # `-v if maximize else v`
+        arms = (e.body, e.orelse)
+        neg = [isinstance(x, ast.UnaryOp) and isinstance(x.op, ast.USub) for x in arms]
+        if neg[0] != neg[1]:
+            plain = arms[1] if neg[0] else arms[0]
+            negd = arms[0].operand if neg[0] else arms[1].operand
+            if norm(plain) == norm(negd):
                 return True
     if isinstance(e, (ast.ListComp, ast.GeneratorExp)):
         return _is_sign_adapted(e.elt, signs, kinds, depth + 1)
@@ -181,17 +194,19 @@ def r13_1(ctx: Ctx):
                 n_sinks += 1
                 ok = _is_sign_adapted(c.args[1], signs, kinds)
                 obs.append(ctx.ob("R13.1", f, c, status=OK if ok else VIOLATION, detail="CMA-ES is told sign-adapted values" if ok else f"CMA-ES (a minimiser) is told `{norm(c.args[1])}` without sign adaptation: on a maximisation problem the deme descends", construct="cma.tell"))
-            if cs.external == "scipy.optimize.minimize" and _fun_arg(c) is not None:
+            if cs.external == "scipy.optimize.minimize" and _fun_arg(c, f) is not None:
                 n_sinks += 1
-                ok, why = _objective_sign_adapted(ctx, f, _fun_arg(c))
-                obs.append(ctx.ob("R13.1", f, c, status=OK if ok else VIOLATION, detail="scipy minimises a sign-adapted objective" if ok else f"scipy.optimize.minimize is handed {why}: on a maximisation problem the local search descends", construct="scipy.minimize"))
+                ok, why = _objective_sign_adapted(ctx, f, _fun_arg(c, f))
+                obs.append(ctx.ob("R13.1", f, c, status=OK if ok else INCONCLUSIVE if ok is None else VIOLATION, detail="scipy minimises a sign-adapted objective" if ok else f"scipy.optimize.minimize is handed {why}" + (": on a maximisation problem the local search descends" if ok is False else ""), construct="scipy.minimize"))
     if n_sinks < 12:
         raise AnalysisError(f"only {n_sinks} order-sensitive sinks found (>= 14 confirmed by hand)")
     return obs
 
 
-def _fun_arg(c: ast.Call):
-    return c.args[0] if c.args else next((k.value for k in c.keywords if k.arg == "fun"), None)
+def _fun_arg(c: ast.Call, f=None):
+    from ..core import effective_keywords
+
+    return c.args[0] if c.args else effective_keywords(c, local_defs(f) if f is not None else None).get("fun")
 
 
 def _is_sign_expr(a, signs) -> bool:
@@ -201,38 +216,42 @@ def _is_sign_expr(a, signs) -> bool:
 
 
 def _objective_sign_adapted(ctx, f, arg):
-    defs = local_defs(f)
+    """(True, "") | (False, reason) | (None, reason: form not understood)"""
+    from .common import objective_function
+
+    kind, node, owner, rets = objective_function(ctx, f, arg)
+    if kind == "method-ref":
+        return False, f"the raw objective `{norm(node)}`"
+    if kind == "unknown":
+        return None, f"an objective `{norm(arg)}` the analyser cannot resolve"
     signs = _sign_names(ctx, f)
-    node = None
-    if isinstance(arg, ast.Lambda):
-        rets = [arg.body]
-    elif isinstance(arg, ast.Name) and arg.id in f.nested:
-        node = f.nested[arg.id].node
-        rets = [r.value for r in ast.walk(node) if isinstance(r, ast.Return) and r.value is not None]
-        signs = signs | _sign_names(ctx, f.nested[arg.id])
-    elif isinstance(arg, ast.Name) and arg.id in defs and len(defs[arg.id]) == 1 and isinstance(defs[arg.id][0], ast.Lambda):
-        rets = [defs[arg.id][0].body]
-    else:
-        d = defs.get(arg.id, [None])[0] if isinstance(arg, ast.Name) else arg
-        return False, f"the raw objective `{norm(d) if d is not None else norm(arg)}`"
+    if owner is not None:
+        signs = signs | _sign_names(ctx, owner)
+    nd = {}
+    if not isinstance(node, ast.Lambda):
+        for st in ast.walk(node):
+            if isinstance(st, ast.Assign) and len(st.targets) == 1 and isinstance(st.targets[0], ast.Name):
+                nd[st.targets[0].id] = st.value
+    if not rets:
+        return None, "an objective with no return"
     for r in rets:
+        r0 = r
+        hops = 0
+        while isinstance(r0, ast.Name) and r0.id in nd and hops < 4:
+            r0 = nd[r0.id]
+            hops += 1
         okr = False
-        if isinstance(r, ast.BinOp) and isinstance(r.op, ast.Mult):
-            for a, b in ((r.left, r.right), (r.right, r.left)):
-                if _is_sign_expr(a, signs) and any(isinstance(x, ast.Call) and norm(x.func).endswith(".evaluate") for x in ast.walk(b)):
-                    okr = True
-        # local sign variable defined as IfExp in the nested function itself
-        if not okr and isinstance(r, ast.BinOp) and isinstance(r.op, ast.Mult) and node is not None:
-            nd = {}
-            for st in ast.walk(node):
-                if isinstance(st, ast.Assign) and len(st.targets) == 1 and isinstance(st.targets[0], ast.Name):
-                    nd[st.targets[0].id] = st.value
-            for a, b in ((r.left, r.right), (r.right, r.left)):
-                if isinstance(a, ast.Name) and isinstance(nd.get(a.id), ast.IfExp) and _reads_maximize(nd[a.id].test):
+        if isinstance(r0, ast.BinOp) and isinstance(r0.op, ast.Mult):
+            for a, b in ((r0.left, r0.right), (r0.right, r0.left)):
+                a0 = nd.get(a.id, a) if isinstance(a, ast.Name) else a
+                if (_is_sign_expr(a, signs) or _is_sign_expr(a0, signs)) and any(isinstance(x, ast.Call) and norm(x.func).endswith(".evaluate") for x in ast.walk(b) if True) or ((_is_sign_expr(a, signs) or _is_sign_expr(a0, signs)) and isinstance(b, ast.Name) and isinstance(nd.get(b.id), ast.Call) and norm(nd[b.id].func).endswith(".evaluate")):
                     okr = True
         if not okr:
-            return False, f"an objective returning `{norm(r)}` (no sign adapter)"
-    return bool(rets), "an objective with no return"
+            evaluates = any(isinstance(x, ast.Call) and norm(x.func).endswith(".evaluate") for x in ast.walk(r0)) or (isinstance(r0, ast.Name))
+            if isinstance(r0, ast.Call) and norm(r0.func).endswith(".evaluate"):
+                return False, f"an objective returning the raw value `{norm(r0)}` (no sign adapter)"
+            return None, f"an objective returning `{norm(r0)[:60]}` (sign adaptation not recognised)"
+    return True, ""
 
 
 def r13_2(ctx: Ctx):
@@ -371,13 +390,13 @@ def r13_5(ctx: Ctx):
         if f.name == "<module>":
             continue
         for cs in ctx.res.callsites(f):
-            if cs.external == "scipy.optimize.minimize" and isinstance(cs.node, ast.Call) and _fun_arg(cs.node) is not None:
+            if cs.external == "scipy.optimize.minimize" and isinstance(cs.node, ast.Call) and _fun_arg(cs.node, f) is not None:
                 sites.append((f, cs.node))
     if len(sites) < 2:
         raise AnalysisError(f"only {len(sites)} scipy.optimize.minimize call sites found (2 confirmed by hand)")
-    verdicts = [(f, c) + _objective_sign_adapted(ctx, f, _fun_arg(c)) for f, c in sites]
+    verdicts = [(f, c) + _objective_sign_adapted(ctx, f, _fun_arg(c, f)) for f, c in sites]
     for f, c, ok, why in verdicts:
-        obs.append(ctx.ob("R13.5", f, c, status=OK if ok else VIOLATION, detail="objective sign-adapted like its sibling call site(s)" if ok else f"this scipy call site gets {why} while a sibling site adapts the sign" if any(v[2] for v in verdicts) else f"scipy gets {why}"))
+        obs.append(ctx.ob("R13.5", f, c, status=OK if ok else INCONCLUSIVE if ok is None else VIOLATION, detail="objective sign-adapted like its sibling call site(s)" if ok else f"this scipy call site gets {why} while a sibling site adapts the sign" if any(v[2] for v in verdicts) else f"scipy gets {why}"))
     return obs
 
 
@@ -391,15 +410,33 @@ def r13_6(ctx: Ctx):
         signs = _sign_names(ctx, f)
         if not signs:
             continue
+        defs = local_defs(f)
+        kinds = Kinds(ctx, f)
+        cands = []
         for st in body_walk(f.node):
-            if isinstance(st, ast.Assign) and len(st.targets) == 1 and isinstance(st.targets[0], ast.Attribute) and st.targets[0].attr == "fitness":
-                v = st.value
-                reads_opt = any(isinstance(x, ast.Attribute) and x.attr in ("fun",) for x in ast.walk(v))
-                if not reads_opt:
-                    continue
-                n += 1
-                ok = isinstance(v, ast.BinOp) and isinstance(v.op, ast.Mult) and (norm(v.left) in signs or norm(v.right) in signs)
-                obs.append(ctx.ob("R13.6", f, st, status=OK if ok else VIOLATION, detail="optimiser's value converted back with the sign adapter" if ok else f"`{norm(st)}` stores the optimiser's (sign-adapted) value as a fitness without converting it back: recorded individuals carry -f on maximisation problems"))
+            if isinstance(st, ast.Assign) and len(st.targets) == 1 and isinstance(st.targets[0], ast.Attribute) and st.targets[0].attr in ("fitness", "_fitness"):
+                cands.append((st, st.value))
+            elif isinstance(st, ast.Call) and norm(st.func).split(".")[-1] == "Individual":
+                kv = next((k.value for k in st.keywords if k.arg == "fitness"), st.args[1] if len(st.args) > 1 else None)
+                if kv is not None:
+                    cands.append((st, kv))
+        for st, v0 in cands:
+            v = ast.parse(canon(v0, defs), mode="eval").body
+            while isinstance(v, ast.Call) and norm(v.func) in ("float", "np.float64") and len(v.args) == 1:
+                v = v.args[0]
+            reads_opt = any(isinstance(x, ast.Attribute) and x.attr in ("fun",) for x in ast.walk(v))
+            if not reads_opt:
+                continue
+            n += 1
+            if _is_sign_adapted(v, signs, kinds):
+                status = OK
+            elif isinstance(v, ast.Attribute) and v.attr == "fun":
+                status = VIOLATION
+            elif isinstance(v, ast.UnaryOp) and isinstance(v.op, (ast.USub, ast.UAdd)) and isinstance(v.operand, ast.Attribute):
+                status = VIOLATION  # unconditional negation: wrong for one of the two directions
+            else:
+                status = INCONCLUSIVE
+            obs.append(ctx.ob("R13.6", f, st, status=status, detail="optimiser's value converted back with the sign adapter" if status == OK else f"`{norm(st)[:80]}` stores the optimiser's (sign-adapted) value as a fitness without converting it back: recorded individuals carry -f on maximisation problems" if status == VIOLATION else f"cannot tell whether `{norm(v)[:60]}` converts the optimiser's value back", construct="fun->fitness"))
     if n == 0:
         obs.append(ctx.ob("R13.6", None, None, subject="pyhms", loc="-", status=INCONCLUSIVE, detail="no store of an optimiser-reported value into a fitness found (LocalDeme._history_callback confirmed by hand)", construct="none"))
     return obs
